@@ -209,6 +209,7 @@ def dom (b : Book) : Op → Bool
   | .setColumnsHidden _ _ _ _ => true
   | .setRowsHidden _ _ _ _ => true
   | .moveRows _ _ _ _ => true
+  | .moveColumns _ _ _ _ => true
 
 /-- the three ways `move_rows_action` can end -/
 theorem moveRows_cases (b : Book) (s : Nat) (r n d : Int) :
@@ -216,6 +217,22 @@ theorem moveRows_cases (b : Book) (s : Nat) (r n d : Int) :
       (∃ b' nd, mMoveRows b s r n nd = .ok b' ∧
         moveRows b s r n d = done b' [.moveRows s r n nd]) := by
   unfold moveRows
+  split
+  · left; rfl
+  · split
+    · right; left; exact ⟨_, rfl⟩
+    · split
+      · right; left; exact ⟨_, rfl⟩
+      · split
+        · right; left; exact ⟨_, rfl⟩
+        · next b' hm => right; right; exact ⟨_, _, hm, rfl⟩
+
+/-- the three ways `move_columns_action` can end -/
+theorem moveColumns_cases (b : Book) (s : Nat) (r n d : Int) :
+    moveColumns b s r n d = ⟨b, none, none⟩ ∨ (∃ e, moveColumns b s r n d = fail b e) ∨
+      (∃ b' nd, mMoveColumns b s r n nd = .ok b' ∧
+        moveColumns b s r n d = done b' [.moveColumns s r n nd]) := by
+  unfold moveColumns
   split
   · left; rfl
   · split
@@ -424,6 +441,11 @@ theorem doOp_atomic (b : Book) (o : Op) (e : Err) (h : (doOp env b o).err = some
     rcases moveRows_cases b s r n d with h1 | ⟨e', h1⟩ | ⟨b', nd, _, h1⟩ <;>
       rw [h1] at h ⊢ <;> simp_all [fail, done]
 
+  | moveColumns s r n d =>
+    simp only [doOp] at h ⊢
+    rcases moveColumns_cases b s r n d with h1 | ⟨e', h1⟩ | ⟨b', nd, _, h1⟩ <;>
+      rw [h1] at h ⊢ <;> simp_all [fail, done]
+
 /-! ### a successful call that records nothing changed nothing -/
 
 theorem doOp_quiet (b : Book) (o : Op) (herr : (doOp env b o).err = none)
@@ -502,6 +524,11 @@ theorem doOp_quiet (b : Book) (o : Op) (herr : (doOp env b o).err = none)
   | moveRows s r n d =>
     simp only [doOp] at herr hp ⊢
     rcases moveRows_cases b s r n d with h1 | ⟨e', h1⟩ | ⟨b', nd, _, h1⟩ <;>
+      rw [h1] at herr hp ⊢ <;> simp_all [fail, done]
+
+  | moveColumns s r n d =>
+    simp only [doOp] at herr hp ⊢
+    rcases moveColumns_cases b s r n d with h1 | ⟨e', h1⟩ | ⟨b', nd, _, h1⟩ <;>
       rw [h1] at herr hp ⊢ <;> simp_all [fail, done]
 
 /-! ### single-diff operations: the recorded diff links the states before and after -/
@@ -729,13 +756,13 @@ theorem rowSrc_inv (r d x : Int) : rowSrc r d (rowSrc (r + d) (-d) x) = x := by
   repeat' split
   all_goals omega
 
-theorem moveRow1_inv (f : Int → RowView) (r d : Int) :
+theorem moveRow1_inv {α : Type} (f : Int → α) (r d : Int) :
     moveRow1 (moveRow1 f r d) (r + d) (-d) = f := by
   funext x
   simp only [moveRow1, rowSrc_inv]
 
 /-- moving down: the last single move is the one of the first row -/
-theorem loop_down_last (d : Int) (hd : 0 < d) : ∀ (n : Nat) (row : Int) (f : Int → RowView),
+theorem loop_down_last {α : Type} (d : Int) (hd : 0 < d) : ∀ (n : Nat) (row : Int) (f : Int → α),
     moveRowsLoop d (n + 1) row f = moveRow1 (moveRowsLoop d n (row + 1) f) row d
   | 0, row, f => by simp [moveRowsLoop, hd]
   | n + 1, row, f => by
@@ -752,7 +779,7 @@ theorem loop_down_last (d : Int) (hd : 0 < d) : ∀ (n : Nat) (row : Int) (f : I
     rw [this]
 
 /-- moving up: the last single move is the one of the last row -/
-theorem loop_up_last (d : Int) (hd : ¬ 0 < d) : ∀ (n : Nat) (row : Int) (f : Int → RowView),
+theorem loop_up_last {α : Type} (d : Int) (hd : ¬ 0 < d) : ∀ (n : Nat) (row : Int) (f : Int → α),
     moveRowsLoop d (n + 1) row f = moveRow1 (moveRowsLoop d n row f) (row + n) d
   | 0, row, f => by simp [moveRowsLoop, hd]
   | n + 1, row, f => by
@@ -767,7 +794,7 @@ theorem loop_up_last (d : Int) (hd : ¬ 0 < d) : ∀ (n : Nat) (row : Int) (f : 
     rw [this]
 
 /-- a block moved by `d` and then, from its new place, by `-d` is back where it was -/
-theorem moveRowsLoop_inv (d : Int) (hd0 : d ≠ 0) : ∀ (n : Nat) (row : Int) (f : Int → RowView),
+theorem moveRowsLoop_inv {α : Type} (d : Int) (hd0 : d ≠ 0) : ∀ (n : Nat) (row : Int) (f : Int → α),
     moveRowsLoop (-d) n (row + d) (moveRowsLoop d n row f) = f
   | 0, _, _ => rfl
   | n + 1, row, f => by
@@ -834,6 +861,48 @@ theorem linked1_moveRows {b b' : Book} {sheet : Nat} {row count nd : Int}
           rw [setSheet_setSheet]
           simp only [moveRowsLoop_inv nd hnd]
           rw [sheet_rows_roundtrip]
+          exact congrArg _ (setSheet_same hs)
+
+
+theorem sheet_cols_roundtrip (s : Sheet) (g : Int → ColView) :
+    ({ ({ s with colAt := g } : Sheet) with colAt := s.colAt } : Sheet) = s := by cases s; rfl
+
+/-- the recorded `MoveColumns` diff links the states before and after the model-level move -/
+theorem linked1_moveColumns {b b' : Book} {sheet : Nat} {row count nd : Int}
+    (h : mMoveColumns b sheet row count nd = .ok b') :
+    Linked1 env (.moveColumns sheet row count nd) b b' := by
+  refine ⟨?_, h⟩
+  simp only [back1]
+  unfold mMoveColumns at h ⊢
+  by_cases h0 : count ≤ 0 ∨ nd = 0
+  · have h0' : count ≤ 0 ∨ -nd = 0 := by omega
+    simp only [h0, if_true] at h
+    injection h with h; subst h
+    simp only [h0', if_true]
+  · have h0' : ¬ (count ≤ 0 ∨ -nd = 0) := by omega
+    simp only [h0, if_false] at h
+    simp only [h0', if_false]
+    by_cases h1 : (!validCol (row + nd) || !validCol (row + count - 1 + nd)) = true
+    · simp [h1] at h
+    · simp only [h1] at h
+      by_cases h2 : (!validCol row || !validCol (row + count - 1)) = true
+      · simp [h2] at h
+      · simp only [h2] at h
+        have e1 : row + nd + -nd = row := by omega
+        have e2 : row + nd + count - 1 + -nd = row + count - 1 := by omega
+        have e3 : row + nd + count - 1 = row + count - 1 + nd := by omega
+        have e4 : row + count - 1 + nd + -nd = row + count - 1 := by omega
+        simp only [e1, e2, e3, e4, h2, h1]
+        cases hs : getSheet b sheet with
+        | error e => simp [hs] at h
+        | ok s =>
+          simp only [hs, Bool.false_eq_true, if_false] at h
+          injection h with h; subst h
+          simp only [getSheet_setSheet hs, Bool.false_eq_true, if_false]
+          have hnd : nd ≠ 0 := by omega
+          rw [setSheet_setSheet]
+          simp only [moveRowsLoop_inv nd hnd]
+          rw [sheet_cols_roundtrip]
           exact congrArg _ (setSheet_same hs)
 
 
@@ -1132,6 +1201,16 @@ theorem op_chain (b : Book) (o : Op) (ds : List Diff) (hd : dom env b o = true)
       simp only [done, Option.some.injEq] at hp ⊢
       subst hp
       exact Chain.single env (linked1_moveRows env hm)
+
+  | moveColumns s r n d =>
+    simp only [doOp] at herr hp ⊢
+    rcases moveColumns_cases b s r n d with h1 | ⟨e', h1⟩ | ⟨b', nd, hm, h1⟩
+    · rw [h1] at hp; simp at hp
+    · rw [h1] at herr; simp [fail] at herr
+    · rw [h1] at hp ⊢
+      simp only [done, Option.some.injEq] at hp ⊢
+      subst hp
+      exact Chain.single env (linked1_moveColumns env hm)
 
 /-- the concrete model satisfies the laws of the generic machine on `dom` (`obs` = identity) -/
 theorem laws : Laws (sys env) (fun w => w) (fun b o => dom env b o = true) where
